@@ -58,13 +58,18 @@ Unwrap(job, me, path) ==
 (* kind "cmd": an ordinary task; kind "file": a file push - the file's bytes as a chunk task and then the command that
    names the file, both addressed to the deepest agent, both wrapped and routed the same way, in that order *)
 Kinds == {"cmd", "file"}
-Down(kind) ==   \* operator task(s) for the deepest agent; first hop checks in
+DownAs(op, owner, kind) ==
     /\ kind \in Kinds
-    /\ last' = IF Dropped THEN [op |-> "Down", owner |-> "", delivered |-> FALSE, path |-> <<>>, at |-> "", ok |-> FALSE]
+    /\ last' = IF Dropped THEN [op |-> op, owner |-> owner, delivered |-> FALSE, path |-> <<>>, at |-> "", ok |-> FALSE]
                ELSE LET u == Unwrap(Wrapped, chain[1], <<>>) IN
-                    [op |-> "Down", owner |-> "", delivered |-> TRUE, path |-> u.path, at |-> u.at, ok |-> (u.final = Task(chain[Len(chain)]))]
-    /\ hist' = Append(hist, [op |-> "Down", owner |-> "", kind |-> kind])
+                    [op |-> op, owner |-> owner, delivered |-> TRUE, path |-> u.path, at |-> u.at, ok |-> (u.final = Task(chain[Len(chain)]))]
+    /\ hist' = Append(hist, [op |-> op, owner |-> owner, kind |-> kind])
     /\ UNCHANGED <<chain, cls>>
+Down(kind) == DownAs("Down", "", kind)   \* operator task(s) for the deepest agent; first hop checks in
+(* the same, and while the tasks wait at the first hop the operator empties the task queue of a hop in the middle (h's own tasks:
+   what waits for agents behind h is not h's) *)
+DownClear(h) == /\ \E i \in 2..(Len(chain) - 1) : chain[i] = h
+                /\ DownAs("DownClear", h, "cmd")
 
 (* a callback of the deepest agent relayed upward hop by hop; the request id is outstanding for `owner` *)
 Up(owner) ==
@@ -86,6 +91,13 @@ LateDisconnect == /\ Len(hist) > 0 /\ hist[Len(hist)].op = "Rehang"
                   /\ last' = [op |-> "LateDisconnect", owner |-> hist[Len(hist)].owner, delivered |-> FALSE, path |-> <<>>, at |-> "", ok |-> TRUE]
                   /\ hist' = Append(hist, [op |-> "LateDisconnect", owner |-> hist[Len(hist)].owner, kind |-> hist[Len(hist)].kind])
                   /\ UNCHANGED <<chain, cls>>
+(* sessions change and come back: hop h answers the operator's checkin request with new key material (from then on its layer is
+   under the new key); the teamserver restarts (sessions, keys and the chain come back from the database).  Routing is as before *)
+Quiet(op, owner) == /\ last' = [op |-> op, owner |-> owner, delivered |-> FALSE, path |-> <<>>, at |-> "", ok |-> TRUE]
+                    /\ hist' = Append(hist, [op |-> op, owner |-> owner, kind |-> ""])
+                    /\ UNCHANGED <<chain, cls>>
+Rekey(h) == (\E i \in 1..Len(chain) : chain[i] = h) /\ Quiet("Rekey", h)
+Restart == Quiet("Restart", "")
 Next == /\ Len(hist) < 3
         /\ \/ \E k \in Kinds : Down(k)
            \/ \E o \in {chain[i] : i \in 1..Len(chain)} \cup {"nobody"} : Up(o)
@@ -93,7 +105,7 @@ Next == /\ Len(hist) < 3
 Spec == Init /\ [][Next]_vars
 -----------------------------------------------------------------------------
 (* C08 *)
-RoutedDown == last.op = "Down" =>
+RoutedDown == last.op \in {"Down", "DownClear"} =>
                  /\ last.delivered
                  /\ last.path = Tail(chain)                 \* each hop finds the next hop's id
                  /\ last.at = chain[Len(chain)] /\ last.ok   \* the last frame is the original task under the target's key
